@@ -10,6 +10,7 @@
                 out = S<code>:<hexRetryAfter>:<chal> | E<isnet><timeout><temporary>[:shape] | TO (=E111) | ER (=E000)
    <id> Q <pred> ... <script> <opts> <G|P<hexform>> <tokenscript>     (auth client, token request modelled)
    <id> I <hexstring>                 strconv.ParseInt(s, 10, 64), error ignored
+   <id> Z <pred> ... <script> <opts> <G|P<hexform>> <tokenscript>     (blob push, auth client, token requests modelled)
    <id> D <pred> <maxretry> <minw> <maxw> <tbl> <dflt> <attempt> <out>
    <id> B <D|P> <maxretry> <minw> <maxw> <base> <fnum> <fden> <jnum> <jden> <attempt> <out> <seen>
         seen    STOP | FAIL | PANIC | W<d> *)
@@ -197,6 +198,24 @@ let () =
       Printf.printf "%s %s end=%s first=%s token=%s second=%s\n" id (show_result o.ak_res) (string_of_z o.ak_time)
         (show_attempts bd.bdata o.ak_first) (show_attempts tb.bdata o.ak_token) (show_attempts bd.bdata o.ak_second)
     | [id; "I"; h] -> Printf.printf "%s %s\n" id (string_of_z (parse_int64 (str_of_hex h)))
+    | [id; "Z"; pred; mr; mn; mx; tbl; dflt; cn; kind; body; script; _opts; tokbody; tokscript] ->
+      (* blob push through the auth client, token requests modelled *)
+      let p = table_policy (parse_pred pred) (z_of_string mr) (z_of_string mn) (z_of_string mx)
+          (List.map z_of_string (split_on ',' tbl)) (z_of_string dflt) in
+      let bd = { bk = parse_kind kind; bdata = str_of_hex body } in
+      let tb = if tokbody.[0] = 'P'
+        then { bk = KReplay; bdata = str_of_hex (String.sub tokbody 1 (String.length tokbody - 1)) }
+        else { bk = KNone; bdata = [] } in
+      let sc = List.map parse_beh (split_on ';' script) in
+      let tsc = List.map parse_beh (split_on ';' tokscript) in
+      let u = blob_push_tok true p (parse_cancel cn) bd sc tb tsc in
+      let atts a = show_attempts_list bd.bdata a in
+      let put1, put2, ptok = match u.uk_put with
+        | Some a -> atts (attempts a.ak_first), atts (attempts a.ak_second), attempts a.ak_token
+        | None -> "-", "-", [] in
+      Printf.printf "%s %s end=%s post=%s|%s put=%s|%s tok=%s\n" id (show_result u.uk_res) (string_of_z u.uk_time)
+        (show_attempts_list [] (attempts u.uk_post.ak_first)) (show_attempts_list [] (attempts u.uk_post.ak_second)) put1 put2
+        (show_attempts_list tb.bdata (attempts u.uk_post.ak_token @ ptok))
     | [id; "D"; pred; mr; mn; mx; tbl; dflt; att; out] ->
       let p = table_policy (parse_pred pred) (z_of_string mr) (z_of_string mn) (z_of_string mx)
           (List.map z_of_string (split_on ',' tbl)) (z_of_string dflt) in
